@@ -16,6 +16,7 @@ func init() {
 			"PV-WRITEBACK for struct-valued map elements; PV-WHOLE: the step's samples of the aggregating iterators are only reset and appended to",
 			"PV-PAIR: the sample operation of a binary operation is applied only to a pair matched by grouping key; CH-SIB: all AggregatedLabels implementers agree on the key of the empty set; PV-RESET with the tightened construction-mode exemption; step stamped",
 			"PV-FRESH: per-step group tables; CH-SIB: Key and AsLokiAPI add no condition of their own to the shared enumeration",
+			"PV-PAIR rangeAggIterator.Next output: the reported series are walked from a key list computed from the window in the same step",
 		},
 		NotDecided: []string{"64-bit hash collisions between distinct encodings", "count conservation as arithmetic"},
 		Rules: func(r *Run) {
@@ -33,6 +34,7 @@ func init() {
 			ruleStepBuffers(r) // per-step conservation: a reported step holds only what this step computed
 			ruleKeySiblings(r)
 			rulePerStepGroupTables(r, []string{"vectorAggIterator", "vectorAggHeapIterator", "binOpIterator"})
+			ruleRangeWindow(r) // every series of the window is reported: the key list is computed from the window in this step
 		},
 	})
 }
